@@ -110,16 +110,35 @@ macro_rules | `(tactic| pf_fun) => `(tactic| with_reducible apply PF.guardRemove
 theorem PF.frontStep {w0 w : World} (h : PF w0 w) (g : Nat) (gd : Guard) : PF w0 (frontStep w g gd) := by
   unfold S3.frontStep; pf
 
-theorem PF.guardSignal' : ∀ (fuel : Nat) (w : World) (g : Nat), PF w (guardSignal fuel w g) := by
+theorem PF.condSignal_fst {w0 w : World} (h : PF w0 w) (g : Nat) : PF w0 (condSignal w g).1 := by
+  simp only [Sim.condSignal]
+  split
+  · exact h
+  · split
+    · exact h
+    · refine PF.foldl (fun w q => by pf) _ ?_
+      exact PF.foldl (fun w q => by pf) _ h
+macro_rules | `(tactic| pf_fun) => `(tactic| with_reducible apply PF.condSignal_fst)
+
+theorem PF.ownStep {w0 w : World} (h : PF w0 w) (fwd : Bool) (g : Nat) (gd : Guard) : PF w0 (ownStep fwd w g gd) := by
+  unfold S3.ownStep
+  split
+  · exact h.condSignal_fst g
+  · exact h.frontStep g gd
+
+theorem PF.guardSignalF' : ∀ (fuel : Nat) (fwd : Bool) (w : World) (g : Nat), PF w (guardSignalF fwd fuel w g) := by
   intro fuel
   induction fuel with
-  | zero => intro w g; rw [guardSignal_zero]; exact (PF.refl w).fail _
+  | zero => intro fwd w g; rw [guardSignalF_zero]; exact (PF.refl w).fail _
   | succ fuel ih =>
-    intro w g
-    rw [guardSignal_succ]
+    intro fwd w g
+    rw [guardSignalF_succ]
     split
     · exact PF.refl w
-    · exact PF.foldl (fun w o => ih w o) _ ((PF.refl w).frontStep g _)
+    · exact PF.foldl (fun w o => ih true w o) _ ((PF.refl w).ownStep fwd g _)
+
+theorem PF.guardSignal' (fuel : Nat) (w : World) (g : Nat) : PF w (guardSignal fuel w g) :=
+  PF.guardSignalF' fuel false w g
 
 theorem PF.signal {w0 w : World} (h : PF w0 w) (g : Nat) : PF w0 (signal w g) := h.trans (PF.guardSignal' 8 w g)
 macro_rules | `(tactic| pf_fun) => `(tactic| with_reducible apply PF.signal)
@@ -170,15 +189,6 @@ theorem PF.poolRollback {w0 w : World} (h : PF w0 w) (p : Pid) (pl ini : Nat) : 
   simp only [Sim.poolRollback]; pf
 macro_rules | `(tactic| pf_fun) => `(tactic| with_reducible apply PF.poolRollback)
 
-theorem PF.condSignal_fst {w0 w : World} (h : PF w0 w) (g : Nat) : PF w0 (condSignal w g).1 := by
-  simp only [Sim.condSignal]
-  split
-  · exact h
-  · split
-    · exact h
-    · refine PF.foldl (fun w q => by pf) _ ?_
-      exact PF.foldl (fun w q => by pf) _ h
-macro_rules | `(tactic| pf_fun) => `(tactic| with_reducible apply PF.condSignal_fst)
 
 theorem PF.setRecording {w0 w : World} (h : PF w0 w) (kind idx : Nat) (on : Bool) : PF w0 (setRecording w kind idx on) := by
   simp only [Sim.setRecording]; pf
